@@ -49,7 +49,7 @@ def run(ctx):  # noqa: C901, PLR0912, PLR0915
     ok = True
     for name, (new, own, want) in {'older': (9, 10, False), 'same': (10, 10, True), 'next': (11, 10, True),
                                    'gap': (15, 10, True), 'much older': (1, 10, False)}.items():
-        res, _ = int_eval(gate.node, {'new_mdib_version': new, 'self.mdib_version': own,
+        res, _ = int_eval(gate.node, {gate.node.args.args[1].arg: new, 'self.mdib_version': own,
                                       'self.MDIB_VERSION_CHECK_DISABLED': False})
         wit[name] = {'new': new, 'own': own, 'accepted': res}
         ok = ok and bool(res) == want
@@ -87,7 +87,8 @@ def run(ctx):  # noqa: C901, PLR0912, PLR0915
     ok = True
     for name, (new, old, want) in {'older': (4, 5, False), 'same': (5, 5, False), 'next': (6, 5, True),
                                    'gap': (9, 5, True)}.items():
-        res, _ = int_eval(sg.node, {'new_state_container.StateVersion': new, 'old_state_container.StateVersion': old})
+        p_old, p_new = (a.arg for a in sg.node.args.args[1:3])  # positional: (old state, new state); names are free
+        res, _ = int_eval(sg.node, {f'{p_new}.StateVersion': new, f'{p_old}.StateVersion': old})
         wit[name] = {'new': new, 'old': old, 'usable': res}
         ok = ok and bool(res) == want
     ctx.ob('C06.R2', 'state version orderings', ok,
@@ -173,23 +174,21 @@ def run(ctx):  # noqa: C901, PLR0912, PLR0915
     g = cfg_of(ck)
     inval = [n for n in g.real_nodes() if n.kind == 'stmt' and isinstance(n.stmt, ast.Assign) and
              unparse(n.stmt.targets[0]) == 'self._state' and unparse(n.stmt.value).endswith('.invalid')]
-    early = [n for n in g.nodes if n.kind == 'return']
     ok = len(inval) == 1
+    wit = None
     if ok:
-        facts = g.facts_at(inval[0])
-        ok = ('self._state == ConsumerMdibState.initialized', True) in facts and \
-            all(not t.startswith('mdib_version_group.sequence_id') or True for t, _p in facts)
-        # the only early return is under "both ids equal"
-        eq = [n for n in early
-              if any(t.endswith('sequence_id == self.sequence_id') and p is True for t, p in g.facts_at(n))
-              and any(t.endswith('instance_id == self.instance_id') and p is True for t, p in g.facts_at(n))]
-        ok = ok and len(eq) == 1 and len(early) == 1
-        # invalidation is not nested under one of the two individual comparisons
-        ok = ok and not any((t.endswith('sequence_id != self.sequence_id') or t.endswith('instance_id != self.instance_id')
-                             or t.endswith('sequence_id == self.sequence_id') or t.endswith('instance_id == self.instance_id'))
-                            and ' and ' not in t for t, _p in facts)
+        # path condition of the invalidation as a truth table over the tested atoms: exactly
+        #   initialized and not (sequence ids equal and instance ids equal)      - however the guards are written
+        from engine.pathcond import worlds_of
+        p = ck.node.args.args[1].arg
+        seq, ins = f'{p}.sequence_id == self.sequence_id', f'{p}.instance_id == self.instance_id'
+        w = worlds_of(g, extra_atoms=('self._state == ConsumerMdibState.initialized', seq, ins))
+        ok, wit = w.equivalent(w.cond(inval[0]),
+                               f'self._state == ConsumerMdibState.initialized and not ({seq} and {ins})')
+        if not ok:
+            wit = {'invalidates when': w.describe(w.cond(inval[0])), **wit}
     ctx.ob('C06.R3', 'watchdog invalidates on any mismatch', ok,
-           'a report whose SequenceId or InstanceId differs sets the state to `invalid` (when initialized)', fi=ck)
+           'a report whose SequenceId or InstanceId differs sets the state to `invalid` (when initialized)', fi=ck, witness=wit)
     writers = {}
     for fi in repo.funcs.values():
         if fi.cls is None or CM not in repo.mro(fi.cls.qual):
